@@ -66,7 +66,7 @@ def run (j : Json) : Except String Json := do
           if r.tag = sOption then
             match r.within with
             | some i => match names[i]? with
-              | some (some n) => submittedOption T n attrs text
+              | some (some n) => submittedOption n attrs text
               | _ => none
             | none => none
           else submitted r.tag attrs text
